@@ -586,6 +586,7 @@ def run(ctx):
         if chunk:
             process(ctx, chunk, triples, state)
             chunk = []
+    large_layer(ctx)
     ctx.notes["valid_pairs"] = state["ok"]
     ctx.notes["malformed_pairs_rejected_by_model"] = state["rejected"]
     ctx.notes["model_completeness"] = "total by construction (structural recursion); no None/fuel case exists"
@@ -599,9 +600,88 @@ def run(ctx):
     ctx.exhaustive = ctx.tier == "thorough" and not ctx.search
 
 
+def block_map(shape, k, seed):
+    """k two-class boxes separated by background along the last axis; each box is class 1 on its left half, class 2 on its
+    right half (the halves touch).  By the definitions: the scipy backend (labels ignored) must return exactly the k boxes,
+    the cc3d backend (same label only) exactly the 2k halves."""
+    rr = np.random.RandomState(seed)
+    a = np.zeros(shape, np.uint8)
+    w = shape[-1]
+    step = w // k
+    boxes = []
+    for i in range(k):
+        lo = i * step + 1
+        hi = lo + max(2, step - 2 - int(rr.randint(0, 2)))
+        mid = (lo + hi) // 2
+        sl = tuple(slice(1, max(2, d - 1)) for d in shape[:-1])
+        a[sl + (slice(lo, mid),)] = 1
+        a[sl + (slice(mid, hi),)] = 2
+        boxes.append((sl, lo, mid, hi))
+    return a, boxes
+
+
+def large_problems(arr, boxes, lab, n, bk, ndim):
+    eff = bk or ("cc3d" if ndim >= 3 else "scipy")
+    parts = []
+    for sl, lo, mid, hi in boxes:
+        parts += [[sl + (slice(lo, hi),)]] if eff == "scipy" else [[sl + (slice(lo, mid),)], [sl + (slice(mid, hi),)]]
+    probs = []
+    if not np.array_equal(lab != 0, arr != 0):
+        probs.append("foreground changed")
+    if n != len(parts):
+        probs.append(f"{n} instances reported, {len(parts)} connected components by the definition of the {eff} backend")
+    seen = set()
+    for (sl,) in parts:
+        u = np.unique(lab[sl])
+        if len(u) != 1 or int(u[0]) == 0:
+            probs.append("a connected component carries several instance labels")
+            break
+        seen.add(int(u[0]))
+    if len(seen) != len(parts):
+        probs.append("two connected components share an instance label")
+    if sorted(int(x) for x in np.unique(lab) if x) != list(range(1, n + 1)):
+        probs.append("labels are not 1..n")
+    return probs
+
+
+def large_layer(ctx):
+    """inputs at and above 2^20 voxels (no size-dependent behaviour is allowed by the property); oracle by construction"""
+    shapes = [(1024, 1024), (64, 128, 128), (1 << 20,), (1025, 1031), (1000, 1000)]
+    if ctx.tier == "thorough":
+        shapes += [(2048, 1024), (101, 103, 107), (3, 700, 700)]
+    for si, shape in enumerate(shapes):
+        for bk in (None, "cc3d", "scipy"):
+            k = 3 + (si % 3)
+            arr, boxes = block_map(shape, k, si)
+            ref = np.zeros(shape, np.uint8)
+            ref[tuple(slice(0, 1) for _ in shape)] = 1
+            im = run_impl(arr.copy(), ref, bk)
+            ctx.count({"large": list(shape), "backend": bk, "k": k}, True)
+            ctx.bump(f"large/{len(shape)}d/{bk or 'default'}")
+            if im["status"] != "ok":
+                ctx.violation("approximate_instances raised on a large valid semantic pair: " + im.get("exc", ""),
+                              {"large_shape": list(shape), "k": k, "seed": si, "backend": bk})
+                continue
+            probs = large_problems(arr, boxes, im["pred"], im["n_pred"], bk, len(shape))
+            if probs:
+                ctx.violation("large input: " + "; ".join(probs[:3]), {"large_shape": list(shape), "k": k, "seed": si, "backend": bk})
+
+
 def replay(path):
     d = json.loads(open(path).read())
     private_engine()
+    if "large_shape" in d:
+        shape = tuple(d["large_shape"])
+        arr, boxes = block_map(shape, d["k"], d["seed"])
+        ref = np.zeros(shape, np.uint8); ref[tuple(slice(0, 1) for _ in shape)] = 1
+        im = run_impl(arr.copy(), ref, d["backend"])
+        print(f"{d['k']} two-class boxes in a {shape} map, backend {d['backend'] or 'default'}")
+        if im["status"] != "ok":
+            print("implementation raised", im.get("exc"))
+            return 1
+        probs = large_problems(arr, boxes, im["pred"], im["n_pred"], d["backend"], len(shape))
+        print("implementation: n =", im["n_pred"], "| problems:", probs)
+        return 1 if probs else 0
     if "value" in d and "pred" not in d:       # dtype rule on a single value
         from panoptica.utils.numpy_utils import _get_smallest_fitting_uint
         v = int(d["value"])
